@@ -43,15 +43,21 @@ RANDOM_OPTS = {
     'ncomp': 3, 'shapes': ['plain', 'class'], 'nhandlers': (3, 8), 'prios': [-2, -1, 0, 0, 1, 2, 3],
     'kinds': ['named', 'named', 'catchall', 'global'], 'nnames': 4,
     'script_ops': ['ret', 'fire', 'fire', 'stop', 'cancel'], 'flags': [0], 'maxfire': 3, 'maxops_script': 4,
-    'eprios': [-2, -1, 0, 0, 1, 2, 3], 'targets': [None, '*'], 'p_script': 0.8,
+    'eprios': [-2, -1, 0, 0, 1, 2, 3], 'targets': [None, '*', 'a', 'b'], 'p_script': 0.8, 'p_multichannel': 0.3,
     'hist_ops': ['fire', 'fire', 'fire', 'flush', 'tick', 'cancel'], 'histlen': (3, 10), 'ext_names': 3, 'p_attach': 1.0,
 }
 
 
+# handlers that flush() themselves: the nested call continues the pass in progress and must not
+# pull in events fired since it began
+FLUSH_OPTS = dict(RANDOM_OPTS, script_ops=['ret', 'fire', 'fire', 'flush', 'stop'], p_multichannel=0.0)
+
+
 def gen_random(rnd, quick):
     for i in range(300 if quick else 6000):
-        prog = kernelgen.gen_program(rnd, RANDOM_OPTS)
-        yield prog, kernelgen.gen_history(rnd, RANDOM_OPTS, prog)
+        opts = FLUSH_OPTS if i % 3 == 2 else RANDOM_OPTS
+        prog = kernelgen.gen_program(rnd, opts)
+        yield prog, kernelgen.gen_history(rnd, opts, prog)
 
 
 def witness(prog, lines, clause, line):
@@ -101,6 +107,6 @@ def run(tier, replay=None):
                 'real classes, plus seeded random programs (priorities incl. negative and fractional, fires/stop/cancel in handlers, '
                 'fire/flush/tick/cancel from outside); non-trivial = at least two events dispatched; distinct by hash',
         'assumptions': ['fire and dispatch-begin times come from the guarded tracer hook in Manager._fire/_dispatcher',
-                        'programs contain no explicit flush() inside handlers (nested flushes are outside the re-entrancy clause)'],
+                        'a third of the random programs call flush() inside handlers: the re-entrancy clause is then not judged (a handler that flushes asks for nested dispatch), the order and pass clauses are'],
     }
     return run_kernel_check('C02', tier, spec, replay)
